@@ -20,11 +20,39 @@ TRUSTED = [
 ]
 
 
-def impl(which, a, dt):
+def impl(which, a, dt, history=None):
+    """measure `which` of an AccSignal holding record `a`; with a history the object first holds ANOTHER record, is
+    queried (velocity and the measure itself), and the record is then replaced/changed through the public API.
+    The measure is called twice on the same object: the record must not change and the result must be identical."""
     import eqsig
-    s = eqsig.AccSignal(np.array(a, dtype=float), dt)
+    a = np.array(a, dtype=float)
     f = getattr(eqsig.im, NAMES[which])
-    return np.array(f(s), dtype=float)
+    if history is None:
+        s = eqsig.AccSignal(a, dt)
+    else:
+        other = a[::-1] * 0.5 + 0.25
+        s = eqsig.AccSignal(other, dt)
+        _ = (s.velocity, s.displacement, f(s))
+        if history == 'reset_values':
+            s.reset_values(a)
+        elif history == 'add_series':
+            s.add_series(a - other)
+        elif history == 'inplace_then_reset_values':      # what the set_zero_residual_* methods do
+            vals = s.values
+            vals *= 0.0
+            vals += a
+            s.reset_values(vals)
+        else:
+            raise KeyError(history)
+    r = core.guarded_pure(f, s)
+    if isinstance(r, ImplError):
+        raise RuntimeError(str(r))
+    if not np.array_equal(np.array(s.values, dtype=float), a):
+        raise RuntimeError('harness: record after history differs from the intended one')
+    return np.array(r, dtype=float)
+
+
+HISTORIES = [None, None, 'reset_values', 'add_series', 'inplace_then_reset_values']
 
 
 def mk(which, a, dt, out, rtol, pps=0, nwin=0):
@@ -78,14 +106,20 @@ def run(rep, rng, tier):
             n = gens.small_len(rng, 2, 120)
             a, _ = gens.int_record(rng, n, amp=rng.choice([3, 10]))
             dt = gens.dyadic_dt(rng, 1, 6)
-            r = guarded(impl, which, a, dt)
+            hist = HISTORIES[k % len(HISTORIES)]
+            r = guarded(impl, which, a, dt, hist)
             if isinstance(r, ImplError):
-                rep.violation(NAMES[which], {'function': NAMES[which], 'args': {'dt': dt, 'values': list(a)}, 'impl_error': str(r)})
+                rep.violation(NAMES[which], {'function': NAMES[which], 'args': {'dt': dt, 'values': list(a), 'history': hist}, 'impl_error': str(r)})
                 continue
-            cases.append(mk(which, a, dt, r, 1e-13 if which == 0 else 0))
+            c = mk(which, a, dt, r, 1e-13 if which == 0 else 0)
+            if hist:
+                c.replay['history'] = ['construct on reversed*0.5+0.25', 'read velocity, displacement, measure', hist, 'measure']
+                c.site = c.site + '[after %s]' % hist
+            cases.append(c)
         for k in range(n_tol):
             n = gens.small_len(rng, 2, 250)
             a, _ = gens.float_record(rng, n)
+            a = a * 10.0 ** rng.choice([0, 0, 0, -2, -4, -6, 2, 4])     # weak and strong motions: the scaling laws hold at every amplitude
             dt = rng.choice([0.01, 0.005, 0.02, rng.uniform(1e-3, 0.3)])
             r = guarded(impl, which, a, dt)
             if isinstance(r, ImplError):
